@@ -288,6 +288,25 @@ func execC19(c CaseC19) *Outcome {
 			if fresh == 0 {
 				continue
 			}
+			if trimmed {
+				// the log held in memory was cut by a bounded Load: entries below the cut are not fetched again
+				// (a join stops at entries the log holds), so the merge is not asked to be complete - the status
+				// series is still watched while it runs
+				heads, err := cloneHeads(world.Heads(cl.Stores[src]))
+				if err != nil {
+					return fail("harness: %v", err)
+				}
+				if err := s0.Sync(ctx, heads); err != nil {
+					return fail("step %d: Sync: %v", i, err)
+				}
+				if !cl.W.WaitQuiescent([]iface.Store{s0}, nil, 20*time.Second) {
+					o.Inconclusive = true
+					return o
+				}
+				ss.sample("after a merge into a cut log")
+				o.Labels = append(o.Labels, "merge-into-a-cut-log")
+				break
+			}
 			if len(have) > 0 && (len(writers) > 1 || !writers[0]) {
 				multiIntoNonEmpty = true
 			}
@@ -349,6 +368,7 @@ func execC19(c CaseC19) *Outcome {
 			}
 			// Reopen opens with replication on; that is fine here (nobody else publishes)
 			ss.reset(cl.Stores[0])
+			trimmed = false // a fresh instance has read the whole log back from its cached heads
 			o.Labels = append(o.Labels, "reopen")
 		case "abortload":
 			// a Load of the open store is held at its first block read, a local write is acknowledged meanwhile,
